@@ -145,6 +145,16 @@ func (r *recallWantlist) removeType(c cid.Cid, wtype pb.Message_Wantlist_WantTyp
 	}
 }
 
+// overrideCancel clears a queued cancel because the CID is wanted again. The
+// peer still has the want that cancel was for, so it is recorded as sent:
+// a cancel that follows before the next send must not be dropped.
+func (r *recallWantlist) overrideCancel(cancels *cid.Set, c cid.Cid, priority int32, wtype pb.Message_Wantlist_WantType) {
+	if cancels.Has(c) {
+		cancels.Remove(c)
+		r.sent.Add(c, priority, wtype)
+	}
+}
+
 // markSent moves the want from the pending to the sent list
 //
 // Returns true if the want was marked as sent. Returns false if the want wasn't
@@ -334,7 +344,7 @@ func (mq *MessageQueue) AddBroadcastWantHaves(wantHaves []cid.Cid) {
 
 		// We're adding a want-have for the cid, so clear any pending cancel
 		// for the cid
-		mq.cancels.Remove(c)
+		mq.bcstWants.overrideCancel(mq.cancels, c, mq.priority, pb.Message_Wantlist_Have)
 	}
 
 	mq.wllock.Unlock()
@@ -357,7 +367,7 @@ func (mq *MessageQueue) AddWants(wantBlocks []cid.Cid, wantHaves []cid.Cid) {
 
 		// We're adding a want-have for the cid, so clear any pending cancel
 		// for the cid
-		mq.cancels.Remove(c)
+		mq.peerWants.overrideCancel(mq.cancels, c, mq.priority, pb.Message_Wantlist_Have)
 	}
 	for _, c := range wantBlocks {
 		mq.peerWants.add(c, mq.priority, pb.Message_Wantlist_Block)
@@ -365,7 +375,7 @@ func (mq *MessageQueue) AddWants(wantBlocks []cid.Cid, wantHaves []cid.Cid) {
 
 		// We're adding a want-block for the cid, so clear any pending cancel
 		// for the cid
-		mq.cancels.Remove(c)
+		mq.peerWants.overrideCancel(mq.cancels, c, mq.priority, pb.Message_Wantlist_Block)
 	}
 
 	mq.wllock.Unlock()
@@ -757,7 +767,7 @@ func (mq *MessageQueue) extractOutgoingMessage(supportsHave bool) (bsmsg.BitSwap
 		// place if possible.
 		for _, e := range peerEntries {
 			if e.WantType == pb.Message_Wantlist_Have {
-				mq.peerWants.removeType(e.Cid, pb.Message_Wantlist_Have)
+				mq.peerWants.pending.RemoveType(e.Cid, pb.Message_Wantlist_Have)
 			} else {
 				filteredPeerEntries = append(filteredPeerEntries, e)
 			}
